@@ -33,6 +33,7 @@ HOOK_COMMITS = [
     "98eed37a9ece2b904c22e16ba539aeee0c9108c3",
     "e083470ed97a47094fe9a3c95d90269a387547d6",
     "c3177feaf6928496a10a4eb0a6033f17052334e7",
+    "fa850e7b8c519544f58724ad57983943c882cc39",
 ]
 
 LEVEL_NOTE_COMMON = (
@@ -72,7 +73,7 @@ def c02_relevant(kind, rec, case):
     if scen_of(case).startswith("tap"):
         # explanation tap: calls of the semantic minimiser (exact correspondence with the model) and
         # learned nogoods (implied by the model); the explanations themselves are C17's
-        return kind in ("semmin", "nogood", "panic", "hang", "nonterm")
+        return kind in ("semmin", "recmin", "nogood", "panic", "hang", "nonterm")
     if kind == "solset":
         # the end of an enumeration is an Unsatisfiable verdict on the model plus blocking clauses:
         # a missing solution means it came too early (foreign / repeated solutions are C01 / C03)
@@ -116,9 +117,9 @@ PROPS = {
              "args": ["--mix", "satisfy=4,iterate=3,optimise=1,assume=1"]},
             {"name": "minimiser", "mode": "tap", "quick": 400, "thorough": 8000, "args": []},
         ],
-        "lean_modules": ["Pumpkin.Model.SemMin"],
+        "lean_modules": ["Pumpkin.Model.SemMin", "Pumpkin.Model.RecMin"],
         "relevant": c02_relevant,
-        "level_text": "semantic_minimiser_preserves_meaning: Model/SemMin.lean mirrors semantic_minimiser.rs (apply_predicates, hole propagation loops, redundant-hole removal, consistency, description relative to the original domain, equality merging) and is proved meaning-preserving for every nogood, every original domain and every assignment; tied exactly: the hook records input and output of every call of the real minimiser during search and the model must return the same set of predicates (or 'trivially false'). Proof: the oracle is exact (mem_solutions, solutions_eq_nil_iff), so an accepted Unsatisfiable verdict or posting error means the (prefix) model has no satisfying assignment, and a prefix-unsat model is unsat. Tie to code: every verdict of satisfy and every Err from post/add_clause on generated models is judged against the oracle; non-termination is observed as a poll cap / wall-clock cap.",
+        "level_text": "recursive_minimiser_preserves_meaning: Model/RecMin.lean mirrors recursive_minimiser.rs (initial labels, allowed decision levels, compute_label with its depth cut-off, decision / level / Poison rules, the sweep which keeps Poison and Keep) over opaque predicates and an arbitrary reason graph; proved for every nogood, every acyclic reason graph and every depth limit: whenever the kept predicates hold, all predicates of the original nogood hold (removeDominated_sound), and nothing is invented (recursive_minimiser_subset). Tied exactly: the hook records every run of the real minimiser (initial labels, each compute_label call with its outcome and the non-root antecedents of each requested reason, result) and the model, fed with that reason graph, must keep the same predicates in the same order and make the same sequence of calls with the same outcomes; the observed reason graph must be acyclic; through the hook the depth limit is lowered to 1-6 on a third of the cases so that the cut-off branch runs on small models. semantic_minimiser_preserves_meaning: Model/SemMin.lean mirrors semantic_minimiser.rs (apply_predicates, hole propagation loops, redundant-hole removal, consistency, description relative to the original domain, equality merging) and is proved meaning-preserving for every nogood, every original domain and every assignment; tied exactly: the hook records input and output of every call of the real minimiser during search and the model must return the same set of predicates (or 'trivially false'). Proof: the oracle is exact (mem_solutions, solutions_eq_nil_iff), so an accepted Unsatisfiable verdict or posting error means the (prefix) model has no satisfying assignment, and a prefix-unsat model is unsat. Tie to code: every verdict of satisfy and every Err from post/add_clause on generated models is judged against the oracle; non-termination is observed as a poll cap / wall-clock cap.",
         "level_note": LEVEL_NOTE_COMMON + "Completeness (termination) of real CDCL with restarts/deletion is not a theorem; observed only.",
         "assumptions": ["termination is observed as: no solve exceeds 2,000,000 polls of the termination condition and no case exceeds the stream timeout"],
     },
